@@ -181,7 +181,7 @@ fn is_child_handover(events: &[Event], i: usize) -> bool {
 /// After the chain of hand-overs that follows the Break, whatever container resumes (because a
 /// hand-over was answered Continue) must be an enclosing one: no later event may be located at
 /// or beneath the reporter. Only meaningful without duplicate keys.
-pub fn h_stop_inside(run: &Run, out: &mut Vec<Violation>) {
+pub fn h_stop_inside(run: &Run, doc: &Doc, out: &mut Vec<Violation>) {
     if let Outcome::Panic(_) = run.outcome {
         return;
     }
@@ -205,6 +205,11 @@ pub fn h_stop_inside(run: &Run, out: &mut Vec<Violation>) {
             && i > 0
             && matches!(&ev[i - 1], Event::Call { stage: Stage::TryFrom, .. });
         let reporter: Path = if field_level && !p.is_empty() { p[..p.len() - 1].to_vec() } else { p.clone() };
+        // with duplicate keys a path may denote several values; "inside the reporter" is only
+        // well defined when the reporter's own path denotes exactly one
+        if doc.resolve_all(&reporter).len() != 1 {
+            continue;
+        }
         // skip the hand-over chain
         let mut cur = ev[i].result().unwrap();
         let mut j = i + 1;
@@ -367,7 +372,7 @@ pub fn h_first(base: &Run, run: &Run, out: &mut Vec<Violation>) {
 /// the text has one of the shapes the library's own impls use (any other text claims nothing
 /// that can be checked): the quoted string and its announced number of characters, the quoted
 /// out-of-range number, the quoted unparsable key.
-fn unexpected_claims(msg: &str, here: &Doc) -> Option<String> {
+pub fn unexpected_claims(msg: &str, here: &Doc) -> Option<String> {
     fn between<'a>(s: &'a str, open: &str, close: &str) -> Option<&'a str> {
         let a = s.find(open)? + open.len();
         let b = s[a..].rfind(close)? + a;
@@ -394,6 +399,16 @@ fn unexpected_claims(msg: &str, here: &Doc) -> Option<String> {
             return match there {
                 Some(t) if t == q => None,
                 _ => Some(format!("it quotes the number `{q}`; the value there is {}", here.render())),
+            };
+        }
+    }
+    // the harness's own missing_field_error function says which key it was told is missing
+    if let Some(rest) = msg.strip_prefix("missing_cb#") {
+        if let Some((_, key)) = rest.split_once(':') {
+            return match here {
+                Doc::Map(m) if m.iter().all(|(k, _)| k != key) => None,
+                Doc::Map(_) => Some(format!("the missing_field_error function was told `{key}` is missing; the object there has it")),
+                _ => Some("the position does not hold an object".to_string()),
             };
         }
     }
